@@ -13,7 +13,7 @@ type Rdr<'a> = EndianSlice<'a, RunTimeEndian>;
 // canonical text of decoded operations (gimli side vs model side)
 // ---------------------------------------------------------------------------
 
-fn canon_gimli(op: &Operation<Rdr>) -> String {
+pub fn canon_gimli(op: &Operation<Rdr>) -> String {
     use gimli::DieReference as DR;
     match op {
         Operation::Deref { base_type, size, space } => format!("Deref(base={},size={},space={})", base_type.0, size, space),
@@ -77,7 +77,7 @@ fn canon_gimli(op: &Operation<Rdr>) -> String {
 
 /// The canonical operation the standard assigns to a model op, or None when the
 /// numeric result is outside what the decoded form can represent (8*size overflow).
-fn canon_model(op: &MOp, cfg: &Cfg) -> Option<String> {
+pub fn canon_model(op: &MOp, cfg: &Cfg) -> Option<String> {
     let a = cfg.address_size;
     Some(match op {
         MOp::Addr(v) => format!("Address({})", v),
